@@ -18,15 +18,18 @@ VARIABLES pc,        \* caller -> "idle" | "wait" | "check" | "copy" | "ok" | "e
           sink,      \* objects in the sink
           asked,     \* caller -> logical time it asked
           confirmed, \* object -> logical time the sink last confirmed / received it (-1: never)
-          clock, fails, active, maxActive, maxSame
+          clock, fails, active, maxActive, maxSame,
+          result,    \* leader -> outcome of its check / copy, applied when it takes the lock again
+          basis      \* caller -> logical time from which a confirmation answers it: when it became leader, or when the leader it joined did
 
-vars == <<pc, leaderOf, inFlight, outcome, sink, asked, confirmed, clock, fails, active, maxActive, maxSame>>
+vars == <<pc, leaderOf, inFlight, outcome, sink, asked, confirmed, clock, fails, active, maxActive, maxSame, result, basis>>
 
 Init ==
     /\ pc = [c \in Callers |-> "idle"] /\ leaderOf = [c \in Callers |-> ""]
     /\ inFlight = [o \in Objs |-> ""] /\ outcome = [c \in Callers |-> ""]
     /\ sink \in SUBSET Objs /\ asked = [c \in Callers |-> -1] /\ confirmed = [o \in Objs |-> -1]
     /\ clock = 0 /\ fails = 0 /\ active = {} /\ maxActive = 0 /\ maxSame = 0
+    /\ result = [c \in Callers |-> FALSE] /\ basis = [c \in Callers |-> -1]
 
 \* lock; look for an in-flight replication of the object
 Enter(c) ==
@@ -34,18 +37,21 @@ Enter(c) ==
     /\ LET o == Wants(c) IN
        IF inFlight[o] # ""
        THEN /\ pc' = [pc EXCEPT ![c] = "wait"] /\ leaderOf' = [leaderOf EXCEPT ![c] = inFlight[o]]
+            /\ basis' = [basis EXCEPT ![c] = basis[inFlight[o]]]
             /\ UNCHANGED <<inFlight, outcome>>
        ELSE /\ pc' = [pc EXCEPT ![c] = "check"] /\ inFlight' = [inFlight EXCEPT ![o] = c]
+            /\ basis' = [basis EXCEPT ![c] = clock]
             /\ outcome' = [outcome EXCEPT ![c] = ""] /\ UNCHANGED leaderOf
     /\ asked' = IF pc[c] = "idle" THEN [asked EXCEPT ![c] = clock] ELSE asked
     /\ clock' = clock + 1
-    /\ UNCHANGED <<sink, confirmed, fails, active, maxActive, maxSame>>
+    /\ UNCHANGED <<sink, confirmed, fails, active, maxActive, maxSame, result>>
 
 \* <-replicatingBlob.finished
 Wake(c) ==
     /\ pc[c] = "wait" /\ outcome[leaderOf[c]] # "" /\ inFlight[Wants(c)] # leaderOf[c]
     /\ pc' = [pc EXCEPT ![c] = IF outcome[leaderOf[c]] = "ok" \/ Mut = "skip_after_failed_leader" THEN "ok" ELSE "retry"]
-    /\ UNCHANGED <<leaderOf, inFlight, outcome, sink, asked, confirmed, clock, fails, active, maxActive, maxSame>>
+    /\ clock' = clock + 1
+    /\ UNCHANGED <<leaderOf, inFlight, outcome, sink, asked, confirmed, fails, active, maxActive, maxSame, result, basis>>
 
 Finish(c, ok) ==
     /\ inFlight' = [inFlight EXCEPT ![Wants(c)] = ""]
@@ -57,16 +63,17 @@ Check(c) ==
     /\ pc[c] = "check"
     /\ clock' = clock + 1
     /\ IF Wants(c) \in sink
-       THEN /\ Finish(c, TRUE) /\ confirmed' = [confirmed EXCEPT ![Wants(c)] = clock]
-            /\ UNCHANGED <<active, maxActive, maxSame>>
+       THEN /\ pc' = [pc EXCEPT ![c] = "finishing"] /\ result' = [result EXCEPT ![c] = TRUE]
+            /\ confirmed' = [confirmed EXCEPT ![Wants(c)] = clock]
+            /\ UNCHANGED <<active, maxActive, maxSame, inFlight, outcome>>
        ELSE /\ Cardinality(active) < Limit
             /\ pc' = [pc EXCEPT ![c] = "copy"] /\ active' = active \cup {c}
             /\ maxActive' = IF Cardinality(active) + 1 > maxActive THEN Cardinality(active) + 1 ELSE maxActive
             /\ maxSame' = LET n == Cardinality({x \in active \cup {c} : Wants(x) = Wants(c)}) IN IF n > maxSame THEN n ELSE maxSame
             /\ (IF Mut = "success_before_copy" THEN outcome' = [outcome EXCEPT ![c] = "ok"] /\ inFlight' = [inFlight EXCEPT ![Wants(c)] = ""]
                 ELSE UNCHANGED <<inFlight, outcome>>)
-            /\ UNCHANGED confirmed
-    /\ UNCHANGED <<leaderOf, sink, asked, fails>>
+            /\ UNCHANGED <<confirmed, result>>
+    /\ UNCHANGED <<leaderOf, sink, asked, fails, basis>>
 
 \* base.ReplicateMultiple returns
 CopyDone(c, ok) ==
@@ -76,19 +83,31 @@ CopyDone(c, ok) ==
     /\ confirmed' = IF ok THEN [confirmed EXCEPT ![Wants(c)] = clock] ELSE confirmed
     /\ fails' = IF ok THEN fails ELSE fails + 1
     /\ clock' = clock + 1
-    /\ IF Mut = "no_delete_on_failure" /\ ~ok
-       THEN pc' = [pc EXCEPT ![c] = "err"] /\ UNCHANGED <<inFlight, outcome>>
-       ELSE Finish(c, ok)
-    /\ UNCHANGED <<leaderOf, asked, maxActive, maxSame>>
+    /\ pc' = [pc EXCEPT ![c] = "finishing"] /\ result' = [result EXCEPT ![c] = ok]
+    /\ UNCHANGED <<leaderOf, asked, maxActive, maxSame, inFlight, outcome, basis>>
 
-Next == \E c \in Callers : Enter(c) \/ Wake(c) \/ Check(c) \/ CopyDone(c, TRUE) \/ CopyDone(c, FALSE)
+\* the leader takes the lock again, removes the in-flight entry and wakes the waiters
+FinishLeader(c) ==
+    /\ pc[c] = "finishing"
+    /\ IF Mut = "no_delete_on_failure" /\ ~result[c]
+       THEN pc' = [pc EXCEPT ![c] = "err"] /\ UNCHANGED <<inFlight, outcome>>
+       ELSE Finish(c, result[c])
+    /\ clock' = clock + 1
+    /\ UNCHANGED <<leaderOf, sink, asked, confirmed, fails, active, maxActive, maxSame, result, basis>>
+
+Next == \E c \in Callers : Enter(c) \/ Wake(c) \/ Check(c) \/ CopyDone(c, TRUE) \/ CopyDone(c, FALSE) \/ FinishLeader(c)
 Spec == Init /\ [][Next]_vars
 FairSpec == Spec /\ WF_vars(Next)
 
 \* never two concurrent copies of the same object; never more copies than the limit
 Bounds == maxSame <= 1 /\ maxActive <= Limit
-\* success only if the object was confirmed in, or copied to, the sink after the caller asked
-SuccessConfirmed == \A c \in Callers : pc[c] = "ok" => confirmed[Wants(c)] >= asked[c]
+\* success only if the object was confirmed in, or copied to, the sink after the replication that answers the
+\* caller began: its own, or the one in flight that it joined
+SuccessConfirmed == \A c \in Callers : pc[c] = "ok" => confirmed[Wants(c)] >= basis[c]
+\* The literal reading "after that caller asked" does NOT hold (known finding): a caller that arrives after the
+\* leader has checked the sink but before the leader has taken the lock again joins a replication whose
+\* confirmation precedes its own request.  TLC produces the schedule when this is checked as an invariant.
+StrictSuccessConfirmed == \A c \in Callers : pc[c] = "ok" => confirmed[Wants(c)] >= asked[c]
 \* nobody waits forever
 Done == \A c \in Callers : pc[c] \in {"ok", "err"}
 Terminates == <>Done
